@@ -46,6 +46,7 @@ type SessRec struct {
 	Shown   [][]byte // MAC keys disclosed so far
 	Used    []refotr.UsedKey
 	Version uint16
+	keyCache map[[2]uint32]refotr.DataKeys
 }
 
 type Shadow struct {
@@ -64,6 +65,7 @@ type Omni struct {
 	Verdict map[int]*Verdict // by call seq: the specification's verdict on the message delivered in that call
 	Strict  bool             // record codec strictness problems as divergences
 	Off     map[int]bool     // parties without shadow
+	OnData  func(s *Shadow, mi *MsgInfo, r *CallResult) // called for every data message a real party emits, with the shadow state of that moment
 }
 
 // Verdict is the reference implementation's judgement of a delivered message.
@@ -467,6 +469,9 @@ func (o *Omni) absorb(s *Shadow, d *refotr.Data, r *CallResult) *MsgInfo {
 			c.Shown = append(c.Shown, append([]byte{}, d.OldMACKeys[i:i+20]...))
 		}
 	}
+	if o.OnData != nil {
+		o.OnData(s, mi, r)
+	}
 	for _, t := range tlvs {
 		if t.Type == refotr.TLVDisconnected {
 			sp.Encrypted = false
@@ -483,4 +488,22 @@ func (o *Omni) Find(raw []byte) *MsgInfo {
 		}
 	}
 	return nil
+}
+
+// PairKeys returns (cached) the data keys of the pair (our key oi, their key ti) of a recorded session.
+func (c *SessRec) PairKeys(oi, ti uint32) (refotr.DataKeys, bool) {
+	our, ok1 := c.Ours[oi]
+	th, ok2 := c.Theirs[ti]
+	if !ok1 || !ok2 {
+		return refotr.DataKeys{}, false
+	}
+	if c.keyCache == nil {
+		c.keyCache = map[[2]uint32]refotr.DataKeys{}
+	}
+	k, ok := c.keyCache[[2]uint32{oi, ti}]
+	if !ok {
+		k = refotr.DeriveDataKeys(our.Priv, our.Pub, th)
+		c.keyCache[[2]uint32{oi, ti}] = k
+	}
+	return k, true
 }
